@@ -3,6 +3,7 @@
 use crate::util::*;
 use serde_json::{json, Value};
 
+pub mod patterns;
 pub mod versions;
 
 pub fn driver_salt(driver: &str) -> u64 {
@@ -28,6 +29,43 @@ impl Gen {
             "vertriple" => {
                 let (a, b, c) = versions::triple(rng, i);
                 Some(("vertriple".into(), json!({"a": codes(&a), "b": codes(&b), "c": codes(&c)})))
+            }
+            "patmatch" | "patdewey" | "patglob" | "patbrace" => {
+                let (p, names) = match self.driver.as_str() {
+                    "patdewey" => patterns::dewey(rng),
+                    "patglob" => patterns::glob(rng),
+                    "patbrace" => patterns::brace(rng),
+                    _ => patterns::any(rng),
+                };
+                let ns: Vec<Value> = names.iter().map(|n| codes(n)).collect();
+                Some(("patmatch".into(), json!({"p": codes(&p), "ns": ns})))
+            }
+            "reduce" => {
+                // a pool of candidates for one pattern and a random order of pairwise reductions
+                let (p, mut names) = match rng.below(3) { 0 => patterns::dewey(rng), 1 => patterns::glob(rng), _ => patterns::brace(rng) };
+                while names.len() < 2 { names.push(patterns::mutate_name(rng, &p)); }
+                let n = rng.range(2, 8);
+                let pool: Vec<String> = (0..n).map(|_| names[rng.below(names.len())].clone()).collect();
+                let mut steps = vec![];
+                let mut len = n;
+                while len > 1 {
+                    let i = rng.below(len);
+                    let mut j = rng.below(len - 1);
+                    if j >= i { j += 1; }
+                    steps.push(json!([i + 1, j + 1]));
+                    len -= 1;
+                }
+                let pj: Vec<Value> = pool.iter().map(|n| codes(n)).collect();
+                Some(("reduce".into(), json!({"p": codes(&p), "pool": pj, "steps": steps})))
+            }
+            "best" => {
+                let (p, mut names) = patterns::any(rng);
+                while names.len() < 2 {
+                    names.push(patterns::mutate_name(rng, &p));
+                }
+                let a = names[rng.below(names.len())].clone();
+                let b = if rng.chance(1, 8) { a.clone() } else { names[rng.below(names.len())].clone() };
+                Some(("best".into(), json!({"p": codes(&p), "a": codes(&a), "b": codes(&b)})))
             }
             _ => None,
         }
